@@ -45,13 +45,13 @@ def form(action, **opts):
     return _am.form_request(action, opts)
 
 
-def scenario(pre_users):
+def scenario(pre_users, srv_dur=(0, 0)):
     n = corpus.Net()
     z = dict(start_up_duration=0, shut_down_duration=0)
     n.switch("sw1", 4, **z)
     for c, ip in CLIENTS.items():
         n.host(c, ip, **z)
-    kw = dict(z)
+    kw = dict(start_up_duration=srv_dur[0], shut_down_duration=srv_dur[1])  # the target may take ticks to start / shut down
     if pre_users:
         kw["users"] = [dict(u) for u in pre_users]
     n.host(SERVER, SERVER_IP, kind="server", **kw)
@@ -167,11 +167,11 @@ def install_taps():
 
 # ------------------------------------------------------------------------------------------------ driver
 class Driver:
-    def __init__(self, cov, out, ctx, limit, timeout, pre_users, subject=None):
+    def __init__(self, cov, out, ctx, limit, timeout, pre_users, subject=None, srv_dur=(0, 0)):
         global _CUR
         self.cov, self.out, self.ctx = cov, out, ctx
         self.limit, self.T, self.subject = limit, timeout, subject
-        self.game = corpus.build_game(scenario(pre_users))
+        self.game = corpus.build_game(scenario(pre_users, srv_dur))
         self.sim = self.game.simulation
         net = self.sim.network
         self.nodes = {h: net.get_node_by_hostname(h) for h in list(CLIENTS) + [SERVER]}
@@ -249,6 +249,7 @@ class Driver:
         verdict = (self.model.remote_login_verdict if remote else self.model.local_login_verdict)(user, pwd, srv_on)
         self.cov.hit("login_verdicts", f"{kind}|{via}|{verdict}|{'granted' if success else 'refused'}")
         self.cov.inc("logins_judged")
+        self.cov.hit("logins_judged_by_server_power_state", self.nodes[SERVER].operating_state.name)
         outcome = "granted" if success else "refused"
         if verdict.startswith("no:"):
             self.cov.inc("logins_judged_negative")
@@ -620,9 +621,9 @@ class Driver:
             self.v("forbidden-marker-appeared-later", f"marker(s) {late[:3]} of commands that must not execute are present at the end of the sequence")
 
 
-def run_seq(ops, cov, out, ctx, limit, timeout, pre_users, subject=None):
+def run_seq(ops, cov, out, ctx, limit, timeout, pre_users, subject=None, srv_dur=(0, 0)):
     global _CUR
-    d = Driver(cov, out, ctx, limit, timeout, pre_users, subject)
+    d = Driver(cov, out, ctx, limit, timeout, pre_users, subject, srv_dur)
     try:
         for op in ops:
             d.step(op)
@@ -736,8 +737,12 @@ class Check:
                     lim, T = rnd.choice([(3, 3), (2, 2), (3, 2), (2, 4), (4, 3)])
                     pre_users = rnd.choice([[], USERS_B, USERS_B])
                     ops = [rnd.choice(RA) for _ in range(spec["len"])]
-                    d = run_seq(ops, cov, out, {"kind": "rand", "seed": spec["seed"], "k": k, "limit": lim, "timeout": T,
-                                                "pre_users": [u["username"] for u in pre_users]}, lim, T, pre_users)
+                    rnd_d = random.Random(f"{spec['seed']}-{k}-server-power-durations")  # own stream: the op sequences of older seeds stay as they were
+                    srv_dur = rnd_d.choice([(0, 0), (0, 0), (0, 2), (2, 3), (1, 1)])
+                    if srv_dur != (0, 0):
+                        cov.inc("sequences_with_timed_server_power")
+                    d = run_seq(ops, cov, out, {"kind": "rand", "seed": spec["seed"], "k": k, "limit": lim, "timeout": T, "srv_dur": list(srv_dur),
+                                                "pre_users": [u["username"] for u in pre_users]}, lim, T, pre_users, srv_dur=srv_dur)
                     cov.inc("sequences")
                     cov.mx("ops_in_sequence", len(d.log))
                     if d.n_login_ok and d.n_neg:
